@@ -2689,7 +2689,10 @@ class RootTransaction(Transaction):
             if self.is_active:
                 self._connection_rollback_impl()
 
-            if self.connection._nested_transaction:
+            if (
+                self.connection._transaction is self
+                and self.connection._nested_transaction
+            ):
                 self.connection._nested_transaction._cancel()
         finally:
             if self.is_active or try_deactivate:
